@@ -10,6 +10,7 @@ package gabi
 import (
 	"encoding/json"
 	"fmt"
+	"github.com/fxamacker/cbor"
 	gobig "math/big"
 	"os"
 	"path/filepath"
@@ -40,6 +41,28 @@ type c08Seed struct {
 }
 
 func c08Canon(pl ProofList) string {
+	// the signed accumulator travels as an opaque CBOR blob {Msg, Sig}; the decoder matches its two
+	// member names case-insensitively, so differently spelled blobs can carry the same signed message.
+	// Compare what they carry, not how it was spelled.
+	var restore []func()
+	for _, p := range pl {
+		if d, ok := p.(*ProofD); ok && d != nil && d.NonRevocationProof != nil && d.NonRevocationProof.SignedAccumulator != nil {
+			sa := d.NonRevocationProof.SignedAccumulator
+			var t struct{ Msg, Sig []byte }
+			if cbor.Unmarshal(sa.Data, &t) == nil {
+				if re, err := cbor.Marshal(t, cbor.EncOptions{}); err == nil {
+					orig := sa.Data
+					sa.Data = re
+					restore = append(restore, func() { sa.Data = orig })
+				}
+			}
+		}
+	}
+	defer func() {
+		for _, f := range restore {
+			f()
+		}
+	}()
 	b, err := json.Marshal(pl)
 	if err != nil {
 		return "unmarshalable:" + err.Error()
@@ -534,6 +557,10 @@ func FuzzVF_C08_Mut(f *testing.F) {
 			return
 		}
 		if sig, _, _ := c08Judge(seed, mut); sig != "" {
+			if os.Getenv("VF_DUMP") != "" {
+				_ = os.WriteFile(os.Getenv("VF_DUMP")+".seed.json", seed.doc, 0o644)
+				_ = os.WriteFile(os.Getenv("VF_DUMP")+".mut.json", mut, 0o644)
+			}
 			t.Fatalf("VF-VIOLATION %s mutations=%v", sig, desc)
 		}
 	})
